@@ -68,6 +68,7 @@ pub fn replay(prop: &str, part: &str, case: &serde_json::Value) -> Option<CaseRe
         ("C08", _) => c08::eval(&sc()?),
         ("C09", "detection") => c09::eval_detect(&sc()?),
         ("C09", _) => c09::eval_false_alarm(&sc()?),
+        ("C10", "gossip_equal_amounts") => c10::eval_gossip(&sc()?),
         ("C10", _) => c10::eval(&sc()?),
         ("C11", _) => c11::eval(&sc()?),
         ("C12", _) => c12::eval(&sc()?),
